@@ -17,7 +17,7 @@ pub fn info_c12() -> PropInfo {
     PropInfo {
         id: "C12",
         level: "exploration",
-        rule: "generated projects (C01 generator: LF / CRLF / mixed source endings chosen independently of included files, dependency outputs, printf outputs with \\r\\n, temp bodies, tag contents, write arguments) plus targeted sources whose first line fixes LF or CRLF and whose every other channel uses the opposite ending; monitor = byte scan of every output and temp file of every successful build: LF source => no CR anywhere; CRLF source => every LF preceded by CR and every CR followed by LF. Non-trivial = the source (or something it includes / runs / stores) contains the ending opposite to its first line; distinct = distinct project hashes.",
+        rule: "generated projects (C01 generator: LF / CRLF / mixed source endings chosen independently of included files, dependency outputs, printf outputs with \\r\\n, temp bodies, tag contents, write arguments) plus targeted sources whose first line fixes LF or CRLF and whose every other channel uses the opposite ending; monitor = byte scan of every output and temp file of every successful build: LF source => no CR anywhere; CRLF source => every LF preceded by CR and every CR followed by LF. Non-trivial = the source (or something it includes / runs / stores) contains the ending opposite to its first line; distinct = distinct project hashes. Later additions: histories (build, convert every source's line endings - also with a date-preserving tool - and rebuild in place with build or needed mode), verify and needed runs over the built tree with a re-scan, CRLF sources with non-UTF-8 paths.",
         assumptions: &["domain D1: CR occurs only immediately before LF in all inputs", "which temp file belongs to which source is taken from the reference model"],
         floor: (300, 3000),
         shards: (16, 16),
@@ -277,7 +277,7 @@ pub fn info_c13() -> PropInfo {
     PropInfo {
         id: "C13",
         level: "exploration",
-        rule: "single-source projects whose last items enumerate every end-of-file state (text, blank line(s), text without final newline, each directive kind with outputs {none, x, x\\n, multi-line, stored in a tag}, tag use on the last line, empty file, directive followed by a tail line) x LF/CRLF, plus C01-generator sources without dependency includes; each built twice in the same directory with the option on and off (library flag; a sample through the CLI -n flag). Additional cases: the source is built only because a requested file names it in `after` (it must honour the option as well), and a needed-build with the other setting over an existing tree. Monitor: on == off, or on == off + exactly one line ending; a source ending in a text line must end with line+le (on) and without le (off); temp files identical. Non-trivial = the two outputs differ or the source ends in a directive; distinct = distinct sources.",
+        rule: "single-source projects whose last items enumerate every end-of-file state (text, blank line(s), text without final newline, each directive kind with outputs {none, x, x\\n, multi-line, stored in a tag}, tag use on the last line, empty file, directive followed by a tail line) x LF/CRLF, plus C01-generator sources without dependency includes; each built twice in the same directory with the option on and off (library flag; a sample through the CLI -n flag). Additional cases: the source is built only because a requested file names it in `after` (it must honour the option as well), and a needed-build with the other setting over an existing tree. Monitor: on == off, or on == off + exactly one line ending; a source ending in a text line must end with line+le (on) and without le (off); temp files identical. Non-trivial = the two outputs differ or the source ends in a directive; distinct = distinct sources. Later additions: needed-builds into a directory without outputs; same-directory histories for sources built only as dependencies; two-pass sources (a generated dependency first, then plain includes without final newline followed by text); CLI sample with -j 0/1, -N and RUST_LOG debug/trace.",
         assumptions: &["judged for sources whose directive results do not depend on the option (no include/cat of another .txtpp source's output), DESIGN §5 C13 domain note"],
         floor: (300, 3000),
         shards: (16, 16),
@@ -633,7 +633,7 @@ pub fn info_c16() -> PropInfo {
     PropInfo {
         id: "C16",
         level: "exploration",
-        rule: "hostile text generator: 1-40 lines concatenated from an alphabet of directive look-alikes (TXTPP#, -TXTPP#include x, TXTPP#writ, TXTPP#run<TAB>echo ...), tag names, prefixes, blanks, shell metacharacters, non-ASCII; LF/CRLF, with/without final newline, both trailing-newline settings. (1) texts without any directive line (by the reference recogniser) must be reproduced line for line; (2) every text T (first line without leading blank, no trailing blanks) is escaped as `-TXTPP#write t1 / -t2 / ...` and must be reproduced exactly, also while a stored tag whose name occurs in T exists (the tag is consumed by a later line); (3) in mixed sources the ordinary lines appear in order and unmodified (checked by the reference model). Non-trivial = the text contains TXTPP# or a tag name; distinct = distinct texts.",
+        rule: "hostile text generator: 1-40 lines concatenated from an alphabet of directive look-alikes (TXTPP#, -TXTPP#include x, TXTPP#writ, TXTPP#run<TAB>echo ...), tag names, prefixes, blanks, shell metacharacters, non-ASCII; LF/CRLF, with/without final newline, both trailing-newline settings. (1) texts without any directive line (by the reference recogniser) must be reproduced line for line; (2) every text T (first line without leading blank, no trailing blanks) is escaped as `-TXTPP#write t1 / -t2 / ...` and must be reproduced exactly, also while a stored tag whose name occurs in T exists (the tag is consumed by a later line); (3) in mixed sources the ordinary lines appear in order and unmodified (checked by the reference model). Non-trivial = the text contains TXTPP# or a tag name; distinct = distinct texts. Later additions: carriage returns that are line content, a byte order mark in front of the first line, build -> shorten source -> needed-build histories, write-escape round trips through the CLI with RUST_LOG set.",
         assumptions: &["reference recogniser decides what a directive line is", "blanks are space and tab"],
         floor: (500, 5000),
         shards: (16, 16),
